@@ -25,6 +25,8 @@ def main():
     keep = sys.argv[sys.argv.index("--keep-as") + 1] if "--keep-as" in sys.argv else None
     assert sh(f"git -C {WT} status --porcelain --untracked-files=no").stdout.strip() == "", "worktree not clean"
     sh(f"git -C {WT} checkout -q --detach $(git -C /repo rev-parse HEAD)")
+    regen = f"cd {WT} && /venv/bin/python -m pegen src/scenic/syntax/scenic.gram -o src/scenic/syntax/parser.py"
+    sh(regen)  # parser.py is git-ignored: regenerate it from the checkout's grammar
     res = {"property": pid, "repo_head": sh("git -C /repo rev-parse --short HEAD").stdout.strip()}
     rc0, out0 = demo(d)
     res["demo_without_change"] = {"exit": rc0, "tail": out0[-200:]}
@@ -32,6 +34,8 @@ def main():
     if ap.returncode != 0:
         print("PATCH DOES NOT APPLY:", ap.stderr[:300]); sys.exit(2)
     try:
+        if "scenic.gram" in open(os.path.join(d, "patch.diff")).read():
+            sh(regen)
         rc1, out1 = demo(d)
         res["demo_with_change"] = {"exit": rc1, "tail": out1[-300:]}
         ck = subprocess.run(["./check", pid], capture_output=True, text=True, cwd=HERE, env=dict(os.environ, PYVC_REPO=WT), timeout=3000)
@@ -39,6 +43,7 @@ def main():
         res["check"] = {"cmd": f"PYVC_REPO=<patched checkout> ./check {pid}", "exit": ck.returncode, "lines": [l[:300] for l in lines][:12]}
     finally:
         sh(f"git -C {WT} checkout -- . ")
+        sh(regen)
     res["caught"] = res["check"]["exit"] == 1
     print(json.dumps(res, indent=1))
     if keep:
